@@ -108,3 +108,8 @@ def as_form(a, form):
     if form == "int" and arr.size and np.all(np.isfinite(arr)) and np.all(arr == np.round(arr)) and np.all(np.abs(arr) < 2 ** 52):
         return arr.astype(np.int64)
     return arr
+
+
+def seed_value():
+    """an integer seed: mostly arbitrary, but 0 and 1 (falsy / truthy edge values) are drawn often"""
+    return st.one_of(st.sampled_from([0, 0, 1]), st.integers(0, 2 ** 31 - 1), st.integers(0, 2 ** 31 - 1), st.integers(0, 2 ** 31 - 1))
